@@ -191,7 +191,10 @@ def make_mod(backend: str, ode, model, schemes=None, cc=("gcc", ("-O0",), ()), *
 
 class GenError(Exception):
     def __init__(self, phase, exc, code):
-        super().__init__(f"{phase}: {type(exc).__name__}: {exc}")
+        import traceback
+
+        tb = "".join(traceback.format_exception(type(exc), exc, exc.__traceback__)[-14:])
+        super().__init__(f"{phase}: {type(exc).__name__}: {str(exc)[:300]}\n{tb[-2500:]}")
         self.phase = phase
         self.exc = exc
         self.code = code
